@@ -52,7 +52,7 @@ func (c10) Runs(t Tier) int {
 }
 func (c10) RecordWidths() map[string]int { return nil }
 func (c10) RequiredProbes() []string {
-	return []string{"concurrent-builders", "default-chunker", "default-chunker-at-block-boundary", "mixed-link-lengths", "non-murmur-hasher", "file-fragmentation", "rabin-chunker", "dir-permutation", "sharded-permutation", "quick-builder", "distinct-commit-orders>=2", "nested-shards", "straddles-shard-threshold", "multi-level-file"}
+	return []string{"concurrent-builders", "default-chunker", "default-chunker-at-block-boundary", "mixed-link-lengths", "aliased-entries", "non-murmur-hasher", "file-fragmentation", "rabin-chunker", "dir-permutation", "sharded-permutation", "quick-builder", "distinct-commit-orders>=2", "nested-shards", "straddles-shard-threshold", "multi-level-file"}
 }
 
 type c10Scenario struct {
@@ -207,6 +207,17 @@ func (c10) Run(ts *tape.Set, tier Tier) *Result {
 			}
 			ents[n] = gen.EntryCid(n, kind)
 			sizes[n] = int64(pr.Next() % 100000)
+		}
+		if pseed%4 == 1 && len(names) >= 2 {
+			// the same child under several names (hard links / copies), with the
+			// sizes the caller happened to know for each name
+			for i := 1; i < len(names); i += 3 {
+				ents[names[i]] = ents[names[i-1]]
+				if pr.Next()%2 == 0 {
+					sizes[names[i]] = 0
+				}
+			}
+			res.probe("aliased-entries")
 		}
 		if mixed {
 			res.probe("mixed-link-lengths")
